@@ -458,6 +458,26 @@ def rand_case(rng, gene, gen_seed=None, route=None, shape=None):
         # copies (and consecutive solutions) of one major allele that differ only in the minor allele
         mj = rng.choice(multi_minor_majors(gi))
         first = [rand_copy(rng, gi, mj) for _ in range(rng.randint(2, 4))]
+    if shape == "twin-additions":
+        # two copies of the SAME minor allele that carry DIFFERENT added variants of one multi-allelic database site (the alternative
+        # bases share one dbSNP id, so the two copies print with the same label)
+        g = gi.gene
+        by = {}
+        for m in gi.muts:
+            if ">" in m[1] and len(m[1]) == 3:
+                by.setdefault(m[0], []).append(tuple(m))
+        multi = sorted(v for v in by.values() if len(v) >= 2)
+        if multi:
+            pair = rng.sample(rng.choice(multi), 2)
+            ok = [mj for mj in gi.majors if not any(tuple(x)[0] == pair[0][0] for mi in g.alleles[mj].minors.values()
+                                                    for x in (g.alleles[mj].func_muts | mi.neutral_muts))]
+            if ok:
+                mj = rng.choice(ok)
+                a1 = rand_copy(rng, gi, mj)
+                a2 = dict(a1)
+                a1["added"], a2["added"] = [list(pair[0])], [list(pair[1])]
+                a1["missing"], a2["missing"] = [], []
+                first = [a1, a2] + [rand_copy(rng, gi) for _ in range(rng.choice([0, 0, 1]))]
     if shape == "no-copies":
         first = []
     sols = [first]
@@ -602,7 +622,7 @@ def run(chk):
         seeds = [rng.randrange(10 ** 6) for _ in range(4 if quick else 20)]
         for gene, cnt in n.items():
             for k in range(cnt):
-                shape = "same-major" if k % 6 == 1 else ("no-copies" if k % 20 == 7 else None)
+                shape = "same-major" if k % 6 == 1 else ("no-copies" if k % 20 == 7 else ("twin-additions" if k % 6 == 3 else None))
                 cases.append(rand_case(rng, gene, gen_seed=seeds[k % len(seeds)] if gene == "GEN" else None, shape=shape))
         evaluate(chk, cases, sw)
         tab = Counter((f["clause"], f["desc"].get("clause-shape")) for f in chk.failures)
